@@ -14,10 +14,12 @@ def K(prefix, name, clause, kind='P', tier='quick', fns=(), bound=None):
 
 
 PROPS = {}
+WINDOW_DRV = {'file': 'native/core_window.rs', 'attach': 'src/crypto/core.rs', 'test': 'replay_window_matches_the_property'}
 TABLE_MODEL = {'file': 'native/table_model.rs', 'attach': 'src/table.rs', 'test': 'table_matches_reference_model'}
 
 PROPS['C03'] = {
     'level': 'proof',
+    'native_search': {r'kani::core::.*': WINDOW_DRV},
     'kani': {
         'files': {'src/crypto/core.rs': ['kani/core.rs']},
         'harnesses': [
@@ -111,7 +113,8 @@ PROPS['C02'] = {
             K(CORE, 'decrypt_with_key_contract', 'Ok <=> nonce >= min && AEAD ok (a datagram the AEAD rejects is never accepted and changes nothing)', fns=['crypto::core::CryptoCore::decrypt_with_key']),
         ],
     },
-    'native_search': {'kani::coreblocks::decrypt_block_contract': {'file': 'native/core_keyid.rs', 'attach': 'src/crypto/core.rs', 'test': 'altered_key_id_is_rejected'}},
+    'native_search': {'kani::coreblocks::decrypt_block_contract': {'file': 'native/core_keyid.rs', 'attach': 'src/crypto/core.rs', 'test': 'altered_key_id_is_rejected'},
+                      r'kani::core::decrypt_with_key_contract': WINDOW_DRV},
     'trusted': [
         'AEAD axioms (ring): open succeeds only for the key, nonce and ciphertext||tag that seal produced; ring entry points are stubbed by oracles that record key/nonce',
         'block contracts: the statements of encrypt/decrypt between the buffer split and the buffer re-adjustment are cut out verbatim; the surrounding MsgBuffer geometry is under contract in the Verus unit `buffer` (C08)',
@@ -231,7 +234,9 @@ PROPS['C08'] = {
             H_DEC,
         ],
     },
-    'native_search': {'buffer::CryptoCore::decrypt': {'file': 'native/core_short_datagram.rs', 'attach': 'src/crypto/core.rs', 'test': 'decrypt_is_total_on_short_datagrams'}},
+    'native_search': {'buffer::CryptoCore::decrypt': {'file': 'native/core_short_datagram.rs', 'attach': 'src/crypto/core.rs', 'test': 'decrypt_is_total_on_short_datagrams'},
+                      r'kani::core::decrypt_with_key_contract': WINDOW_DRV,
+                      'kani::coreblocks::decrypt_block_contract': {'file': 'native/core_keyid.rs', 'attach': 'src/crypto/core.rs', 'test': 'altered_key_id_is_rejected'}},
     'trusted': [
         'env (NOT decided): PeerCrypto::handle_init_message -> InitState::handle_init -> InitMsg::read_from is assumed total on every well-formed buffer (150-line TLV parser over Cursor/SmallVec; neither back end reaches it)',
         'env: PeerCrypto::handle_rotate_message / RotationMessage parsing is reached only after the AEAD opened the datagram, i.e. not by an outsider',
